@@ -172,6 +172,12 @@ def write(design, r, style=True):
                 line += " \\\n "
             line += " " + w
         out.append(line)
+    def cont(*words):
+        """words of one statement, any gap possibly a line continuation (also right after the keyword)"""
+        line = words[0]
+        for w in words[1:]:
+            line += (" \\\n " if style and r.random() < 0.08 else " ") + w
+        return line
     # port declarations: the reader wants all .inputs lines before .outputs lines
     ins = [fmt_bit(nb) for nb in design["inputs"]]
     outs = [fmt_bit(nb) for nb in design["outputs"]]
@@ -190,7 +196,7 @@ def write(design, r, style=True):
             words = []
             for p, b, nb in it["pins"]:
                 words.append("%s=%s" % (p if b is None else "%s[%d]" % (p, b), fmt_bit(nb)))
-            wrap(words, ".%s %s" % (it["kind"], it["model"]))
+            wrap(words, cont(".%s" % it["kind"], it["model"]))
         elif it["kind"] == "names":
             wrap([fmt_bit(nb) for p, b, nb in it["pins"]], ".names")
             for c in it["covers"]:
@@ -198,13 +204,13 @@ def write(design, r, style=True):
         else:
             wrap([fmt_bit(nb) for p, b, nb in it["pins"]], ".latch")
         if it["cname"]:
-            out.append(".cname " + it["cname"])
+            out.append(cont(".cname", it["cname"]))
         for k, v in it["attr"].items():
-            out.append(".attr %s %s" % (k, v))
+            out.append(cont(".attr", k, v) if " " not in str(v) else ".attr %s %s" % (k, v))
         for k, v in it["param"].items():
-            out.append(".param %s %s" % (k, v))
+            out.append(cont(".param", k, v) if " " not in str(v) else ".param %s %s" % (k, v))
     for a, b in design["conns"]:
-        out.append(".conn %s %s" % (fmt_bit(a), fmt_bit(b)))
+        out.append(cont(".conn", fmt_bit(a), fmt_bit(b)))
     out.append(".end")
     out.append("")
     for m in decl:
